@@ -776,7 +776,53 @@ agraph (float[{n}] x) => (float[{n}] y)
 {chr(10).join(fns)}"""
 
 
+OPSET_TWINS = [
+    # (operator, opset version, input declaration, initializers, statement producing g): the same operator in the form each
+    # opset version gives it (attribute became input, new attribute, ...), declared version next to version
+    ("ReduceMean", 17, "float[2,3,4] x", "", "g = ReduceMean <axes = [1], keepdims = 0> (x)"),
+    ("ReduceMean", 18, "float[2,3,4] x", "int64[1] axes = {1}", "g = ReduceMean <keepdims = 0> (x, axes)"),
+    ("ReduceSum", 11, "float[2,3,4] x", "", "g = ReduceSum <axes = [2], keepdims = 0> (x)"),
+    ("ReduceSum", 13, "float[2,3,4] x", "int64[1] axes = {2}", "g = ReduceSum <keepdims = 0> (x, axes)"),
+    ("Squeeze", 11, "float[2,1,4] x", "", "g = Squeeze <axes = [1]> (x)"),
+    ("Squeeze", 13, "float[2,1,4] x", "int64[1] axes = {1}", "g = Squeeze (x, axes)"),
+    ("Unsqueeze", 11, "float[4] x", "", "g = Unsqueeze <axes = [0]> (x)"),
+    ("Unsqueeze", 13, "float[4] x", "int64[1] axes = {0}", "g = Unsqueeze (x, axes)"),
+    ("Split", 11, "float[4,3] x", "", "g, g2 = Split <axis = 0, split = [1, 3]> (x)"),
+    ("Split", 13, "float[4,3] x", "int64[2] split = {1, 3}", "g, g2 = Split <axis = 0> (x, split)"),
+    ("Split", 18, "float[4,3] x", "", "g, g2 = Split <axis = 0, num_outputs = 2> (x)"),
+    ("Pad", 10, "float[2,3] x", "", "g = Pad <pads = [0, 1, 0, 1]> (x)"),
+    ("Pad", 13, "float[2,3] x", "int64[4] pads = {0, 1, 0, 1}", "g = Pad (x, pads)"),
+    ("Slice", 9, "float[4,6] x", "", "g = Slice <axes = [1], starts = [1], ends = [4]> (x)"),
+    ("Slice", 13, "float[4,6] x", "int64[1] st = {1}, int64[1] en = {4}, int64[1] ax = {1}", "g = Slice (x, st, en, ax)"),
+    ("TopK", 9, "float[3,5] x", "", "g, g2 = TopK <k = 2> (x)"),
+    ("TopK", 11, "float[3,5] x", "int64[1] kk = {2}", "g, g2 = TopK (x, kk)"),
+    ("ReduceMax", 13, "float[2,3,4] x", "", "g = ReduceMax <axes = [0], keepdims = 0> (x)"),
+    ("ReduceMax", 18, "float[2,3,4] x", "int64[1] axes = {0}", "g = ReduceMax <keepdims = 0> (x, axes)"),
+    ("ReduceMax", 20, "float[2,3,4] x", "int64[1] axes = {0}", "g = ReduceMax <keepdims = 0> (x, axes)"),
+]
+
+
+def fam_opset_twins(rng: Rng) -> str:
+    """The same operator in the form each opset version gives it, in models that declare that version: node-level shape
+    inference and the folder look operators up by (domain, name, version), and most nodes carry no version of their own.
+    The result's shape feeds Shape -> Reshape, so whether shape inference worked decides what folds."""
+    names = [f"{o}@{v}" for o, v, *_ in OPSET_TWINS]
+    pick = _variant(rng, [(n, 1) for n in names])
+    op, ver, xdecl, init, stmt = OPSET_TWINS[names.index(pick)]
+    k = rng.choice([24, 48, 12])
+    inits = f"<{init}>\n" if init else ""
+    return f"""<ir_version: 8, opset_import: ["" : {ver}]>
+agraph ({xdecl}, float[{k}] z) => (float[?,?] out, float[?,?] h)
+{inits}{{
+   {stmt}
+   h = Relu(g)
+   s = Shape(h)
+   out = Reshape(z, s)
+}}"""
+
+
 FAMILIES = {
+    "opset_twins": fam_opset_twins,
     "local_functions": fam_local_functions,
     "user_rules": fam_user_rules,
     "pad_conv": fam_pad_conv, "pad_conv_tail": fam_pad_conv_fail_tail, "reshape_reshape": fam_reshape_reshape,
@@ -816,7 +862,7 @@ agraph ({xdecl}, float[{a * b}] z) => (float[?,?] out)
 
 # families whose members walk through declared variants: a batch takes one member per variant (capped), so that every
 # special path of the rule's check() is in every batch; other families vary only in parameters and get 3 members
-N_VARIANTS = {"local_functions": 8, "user_rules": 12, "hardswish": 7, "conv_affine": 5, "expand_binary": 5, "reshape_matmul": 7, "scatter_nd": 4, "rms_norm": 4, "pad_conv": 12, "reshape_reshape": 8, "fold_chain": 10, "slice_split": 7, "const_if": 7}
+N_VARIANTS = {"opset_twins": 20, "local_functions": 8, "user_rules": 12, "hardswish": 7, "conv_affine": 5, "expand_binary": 5, "reshape_matmul": 7, "scatter_nd": 4, "rms_norm": 4, "pad_conv": 12, "reshape_reshape": 8, "fold_chain": 10, "slice_split": 7, "const_if": 7}
 
 
 def members_per_batch(family: str, default: int, cap: int = 10) -> int:
